@@ -812,6 +812,157 @@ def history(c):
                       'rng_calls': rng.calls}}
 
 
+# ================================================ E2 on Simulation (misfit)
+FN_SIM = 'mc.checks.c13_noise:simhistory'
+SIM_OPS = ['misfit', 'nf:scalar', 'nf:full', 're:scalar', 're:rec', 're:none',
+           'sd:full', 'sd:none', 'clean:computed', 'clean:all',
+           'clean:keepresults']
+SIM_STARTS = {'A': {'nf': 'scalar', 're': 'scalar', 'nan': 'none'},
+              'B': {'nf': 'src', 're': 'none', 'nan': 'one'}}
+
+
+def _sim_value(op, shape):
+    which, form = op.split(':')
+    if form == 'none':
+        return None
+    if which == 'sd':
+        s = np.arange(shape[0])[:, None, None]
+        r = np.arange(shape[1])[None, :, None]
+        q = np.arange(shape[2])[None, None, :]
+        return 0.9 + 0.2*s + 0.07*r + 0.31*q + np.zeros(shape)
+    v = form_value(form, shape, which)
+    return v*1.7 if np.ndim(v) else v*2.3
+
+
+def simhistory(c):
+    """Histories on a real Simulation: misfit / explicit noise assignments /
+    clean.  Whenever the misfit is (re)computed from scratch - first call, or
+    first call after clean('computed'|'all') - it must follow the noise
+    settings in force at that moment; a misfit read while the simulation still
+    holds weights cached before a later assignment is not judged."""
+    import emg3d
+    shape = (2, 2, 2)
+    st = SIM_STARTS[c['start']]
+    v = e1_values({'shape': shape, 'nf': st['nf'], 're': st['re'],
+                   'nan': st['nan']})
+    ident = tuple(tuple(range(n)) for n in shape)
+    viol, compared, nmis = [], 0, 0
+    with warnings.catch_warnings():
+        _quiet()
+        survey = e1_survey(v, ident, 'unset', with_syn=False)
+        sim = emg3d.Simulation(survey, tiny_model(), gridding='same',
+                               max_workers=1, verb=-1, tqdm_opts=False,
+                               receiver_interpolation='linear',
+                               solver_opts={'maxit': 1, 'verb': 0})
+        cur = {'nf': ref.setting(v['nf'], shape),
+               're': ref.setting(v['re'], shape), 'sd': None}
+        dobs = v['dobs']
+        fin = np.isfinite(dobs)
+        cached, stale = False, False
+        disabled = False
+        ops = list(c['ops'])
+        if ops[-1] != 'misfit':
+            ops.append('misfit')         # closing probe
+        for i, op in enumerate(ops):
+            where = f"history {ops[:i+1]} from start {c['start']}"
+            if op == 'misfit':
+                std_ref = ref.std_effective(cur['nf'], cur['re'], cur['sd'],
+                                            dobs)
+                try:
+                    m = float(np.asarray(sim.misfit))
+                except ValueError:
+                    if std_ref is None and not cached:
+                        disabled = True      # documented: no std defined
+                        break
+                    raise
+                nmis += 1
+                if not (cached and stale):
+                    if std_ref is None:
+                        viol.append({
+                            'cls': 'misfit-without-standard_deviation',
+                            'what': where + ': misfit returned although no '
+                                    'standard deviation is defined'})
+                        break
+                    dsyn = np.asarray(sim.data.synthetic.data)
+                    m_ref = ref.misfit(dsyn, dobs, std_ref)
+                    compared += 2
+                    if not abs(m - m_ref) <= 1e-11*abs(m_ref):
+                        viol.append({
+                            'cls': 'misfit-after-clean-ignores-current-'
+                                   'noise-settings' if i else
+                                   'misfit-differs-from-noise-model',
+                            'what': where + f': misfit {m!r}, noise model '
+                                    f'in force gives {m_ref!r}',
+                            'observed': m, 'expected': m_ref})
+                    w = np.asarray(sim.data.weights.data, dtype=float)
+                    if not ref.same(w[fin], 1.0/std_ref[fin]**2, 1e-13):
+                        viol.append({
+                            'cls': 'weights-differ-from-noise-model',
+                            'what': where + ': data.weights != 1/std^2 of '
+                                    'the settings in force',
+                            'observed': w, 'expected': 1.0/std_ref**2})
+                    stale = False
+                cached = True
+            elif op.startswith('clean:'):
+                what = op.split(':')[1]
+                sim.clean(what)
+                if what in ('computed', 'all'):
+                    cached, stale = False, False
+            else:
+                which = op.split(':')[0]
+                val = _sim_value(op, shape)
+                name = {'nf': 'noise_floor', 're': 'relative_error',
+                        'sd': 'standard_deviation'}[which]
+                setattr(sim.survey, name,
+                        None if val is None else np.copy(val))
+                cur[which] = (None if val is None else
+                              ref.setting(val, shape))
+                if cached:
+                    stale = True
+            # no operation other than an assignment changes the settings
+            for name, key in (('noise_floor', 'nf'),
+                              ('relative_error', 're')):
+                compared += 1
+                if not equal_setting(reported(getattr(sim.survey, name)),
+                                     cur[key], shape):
+                    viol.append({'cls': f'{name}-changed-by-simulation-op',
+                                 'what': where + f': {name} is not the last '
+                                         'assigned value',
+                                 'observed': getattr(sim.survey, name),
+                                 'expected': cur[key]})
+            sd_now = sim.survey.standard_deviation
+            sd_ref = ref.std_effective(cur['nf'], cur['re'], cur['sd'], dobs)
+            compared += 1
+            if (sd_ref is None) != (sd_now is None) or (
+                    sd_ref is not None and not ref.same(
+                        np.asarray(sd_now.data, float)[fin], sd_ref[fin],
+                        1e-14)):
+                viol.append({'cls': 'standard_deviation-differs-from-noise-'
+                                    'model',
+                             'what': where + ': survey.standard_deviation is '
+                                     'not what the settings in force give'})
+            if viol:
+                break
+    return {'viol': viol, 'compared': compared,
+            'transitions': len(ops), 'nontrivial': nmis > 0,
+            'outcome': (c['start'], nmis, cached, stale, disabled),
+            'count': {'misfit_evaluations': nmis}}
+
+
+def sim_cases(depth):
+    out = []
+    for start in SIM_STARTS:
+        for d in range(1, depth + 1):
+            for ops in itertools.product(SIM_OPS, repeat=d):
+                # two cleans / two assignments of the same setting in a row
+                # reach the same state as the last one alone
+                if any(a.split(':')[0] == b.split(':')[0] and a != 'misfit'
+                       for a, b in zip(ops, ops[1:])):
+                    continue
+                out.append({'start': start, 'ops': list(ops)})
+    return out
+
+
 def alphabet(tier):
     S, R, F = list(SRC_X), list(REC), list(FREQ)
     an = 'add_noise'
@@ -915,7 +1066,7 @@ def run(ctx):
         "design: data of that original are not compared, its noise settings "
         "are")
     quick = ctx.quick
-    cap = ctx.budget or (85 if quick else 840)
+    cap = ctx.budget or (340 if quick else 1680)
     stub, comp = e1_cases(ctx.tier)
     if ctx.wants('formula'):
         ctx.explore(
@@ -936,6 +1087,20 @@ def run(ctx):
             rule='all 27 shapes x covering noise forms with really computed '
                  'fields (4x4x4 grid, one multigrid cycle)',
             time_cap=cap*0.15)
+    if ctx.wants('simulation-histories'):
+        d = 3 if quick else 4
+        ctx.explore(
+            'simulation-histories', FN_SIM, sim_cases(d), engine='E2',
+            rule=f'all sequences up to length {d} over {len(SIM_OPS)} '
+                 'operations on a real Simulation (misfit, explicit '
+                 'assignments of noise_floor / relative_error / '
+                 'standard_deviation, clean x3) from 2 start surveys, fields '
+                 'really computed (4x4x4 grid, one multigrid cycle); '
+                 'every history is closed by a misfit probe; sequences with '
+                 'an immediately overwritten assignment/clean are skipped; '
+                 'non-trivial = '
+                 'the misfit was evaluated',
+            time_cap=cap*0.5)
     core, extra = alphabet(ctx.tier)
     what = ('(add_noise variants, selections, copy, dict, h5/npz/json, '
             'assignments, read); fresh survey per history; only applicable '
